@@ -400,6 +400,37 @@ pub fn mutate(seed: &Seed, rng: &mut Rng, thorough: bool, out: &mut dyn Write) {
             emit(out, &seed.op, &m, &seed.extra);
         }
     }
+    // runs of 2 and 3 consecutive fields set to the same extreme at once (dimensions, sizes and
+    // counts of one record sit next to each other: width x height x depth, count + stride, …)
+    if seed.fields.len() >= 2 {
+        let nf = seed.fields.len();
+        let starts: Vec<usize> = if nf <= 160 || thorough {
+            (0..nf - 1).collect()
+        } else {
+            (0..160).map(|_| rng.below(nf as u64 - 1) as usize).collect()
+        };
+        for s0 in starts {
+            for run in [2usize, 3] {
+                if s0 + run > nf {
+                    continue;
+                }
+                for class in 0..3 {
+                    let mut m = seed.bytes.clone();
+                    for f in &seed.fields[s0..s0 + run] {
+                        let bits = 8 * f.width as u32;
+                        let mask = if bits >= 64 { u64::MAX } else { (1u64 << bits) - 1 };
+                        let v = match class {
+                            0 => mask >> 1,
+                            1 => (mask >> 1) + 1,
+                            _ => mask,
+                        };
+                        put(&mut m, f, v);
+                    }
+                    emit(out, &seed.op, &m, &seed.extra);
+                }
+            }
+        }
+    }
     // random single-byte changes
     let flips = if thorough { 1000 } else { 24 };
     if n > 0 {
